@@ -2,7 +2,7 @@
 does (see mpf/modes/attract/code/attract.py for the switch handler idiom).
 
 Every hook call and every invocation of something this code registered is written to a log that the check reads:
-  calls: (hook name, mode.active)            fired: (what, mode.active, mode.stopping)
+  calls: (hook name, mode.active)            fired: (what, mode.active, mode.stopping, time)
 """
 from mpf.core.mode import Mode
 
@@ -14,7 +14,7 @@ class Coded(Mode):
         self.fired = []
 
     def _note(self, what):
-        self.fired.append((what, bool(self.active), bool(self.stopping)))
+        self.fired.append((what, bool(self.active), bool(self.stopping), self.machine.clock.get_time()))
 
     def mode_will_start(self, **kwargs):
         self.calls.append(("mode_will_start", bool(self.active)))
